@@ -3,6 +3,7 @@
 package syncer
 
 import (
+	"strings"
 	"fmt"
 	"context"
 	"testing"
@@ -136,6 +137,18 @@ func TestC17ModeMigrationDropsNewerRootCheckpoint(t *testing.T) {
 			// the operator switches replay.mode and restarts: syncer.newOutput runs the migration
 			// and then UpdateCheckpoint, exactly in this order
 			newNs, err := s.resolveBisyncCheckpointNameWithClient(cli, ids, tc.newMode, []uint16{0})
+			if err != nil && strings.Contains(err.Error(), "authoritative migration seed") {
+				// the start before the migration has restarted the unit numbering and discarded the
+				// stale mode state (a later repair): the namespace holds its root checkpoint only,
+				// and the repository refuses by design to migrate such a namespace
+				// (TestResolveBisyncCheckpointNameRejectsPlainCheckpointFallback). Nothing is lost:
+				// the old namespace and its position stay as they are.
+				after := startPoint(oldNs, tc.oldReplay)
+				if after.Offset != rootOffset {
+					t.Fatalf("refused migration changed the live resume position: %+v", after)
+				}
+				return
+			}
 			if err != nil {
 				t.Fatalf("mode migration failed: %v", err)
 			}
